@@ -165,6 +165,19 @@ class Shapes:
             if a[2] in ('size', 'ndim'):
                 return ()
             return None
+        if k == 'idx' and a[1][0] == 'app' and a[1][1] in ('broadcast_arrays', 'numpy.broadcast_arrays') and isinstance(a[2], Poly) \
+                and a[2].const_value() is not None:
+            # component of broadcast_arrays(x, y, ..): every component has the common broadcast shape
+            shp = [self.of(x, where) for x in positional(a[1][2])]
+            if any(s_ is None for s_ in shp):
+                return None
+            r = max(len(s_) for s_ in shp)
+            out = [ONE] * r
+            for s_ in shp:
+                for j, d in enumerate(s_):
+                    pos_ = r - len(s_) + j
+                    out[pos_] = self.unify(out[pos_], d, where)
+            return tuple(out)
         if k == 'idx':
             if a[1][0] == 'attr' and a[1][2] == 'shape':
                 return ()
@@ -179,6 +192,16 @@ class Shapes:
         g = lambda i: self.of(pos[i], where) if i < len(pos) else None
         if name in ELEMENTWISE:
             return g(0)
+        if name in ('m:reshape', 'reshape') and len(pos) >= 2:
+            dims_ = list(pos[1].items) if len(pos) == 2 and isinstance(pos[1], Tup) else pos[1:]
+            src = g(0)
+            if src is not None and len(src) == 1 and len(dims_) == 2 and all(isinstance(d, Poly) for d in dims_):
+                m1 = Poly.const(-1)
+                if dims_[0] == m1 and dims_[1] == ONE:
+                    return (src[0], ONE)            # a column vector
+                if dims_[0] == ONE and dims_[1] == m1:
+                    return (ONE, src[0])            # a row vector
+            return None
         if name == 'T':
             s = g(0)
             return tuple(reversed(s)) if s is not None else None
